@@ -65,7 +65,9 @@ LEVEL_TEXT = ("Theorems over the character-level model, all inputs, no size boun
               "SDFile (records/headers/metadata parsed lazily and cached; item assignment and the dict constructor adopt and "
               "rename any record: C18_sdfile_adopt) equals the history on a plain mapping of parsed records; "
               "C18_molfile_set_structure: a rejected set_structure leaves a MOLFile unchanged, an accepted one reads back; "
-              "C18_molfile_header_edit: a header edited in place is what is written; C18_chg_full_lines. Partial: the RDKit bridge (to_mol/from_mol, "
+              "C18_molfile_header_edit: a header edited in place is what is written; C18_chg_full_lines; refusals outside the "
+              "hypotheses are theorems too (C18_v2000_long_element_rejects, C18_key_accepted_iff, C18_metadata_setitem, "
+              "C18_sdf_delim_line_rejects, C18_sdf_empty_rejects, C18_v3000_empty_rejects) and demanded by the oracle (edge stream). Partial: the RDKit bridge (to_mol/from_mol, "
               "conformers) is an external library: tables proved, behaviour tied by the oracle only.")
 LEVEL_NOTE = ("modelled-not-verified: Python float/int formatting and parsing, str methods on ASCII, numpy U2/uint32 stores, "
               "BondList normalisation; RDKit external")
@@ -1514,11 +1516,13 @@ def _bad_set_structure(f, how, rng_mol):
         if how == "v2000-too-many-atoms":
             a = struc.AtomArray(1000)
             a.element[:] = "C"
+            a.coord[:] = 0.0
             a.bonds = struc.BondList(1000)
             f.set_structure(a, version="V2000")
         elif how == "v2000-too-many-bonds":
             a = struc.AtomArray(46)
             a.element[:] = "C"
+            a.coord[:] = 0.0
             a.bonds = struc.BondList(46, np.array([(i, j, 1) for i in range(46) for j in range(i + 1, 46)][:1000]))
             f.set_structure(a, version="V2000")
         elif how == "coordinate-too-wide":
